@@ -352,16 +352,16 @@ func (t *TableDef) field(name string) *FieldDef {
 
 // Cfg holds the per-run knobs.
 type Cfg struct {
-	VirtualTime      bool    `json:"virtualTime,omitempty"`
-	CoalesceNanos    int64   `json:"coalesce,omitempty"`
-	IterConcurrency  int     `json:"iterConc,omitempty"`
-	MaxMemoryRatio   float64 `json:"maxMemRatio,omitempty"`
-	WALSyncNanos     int64   `json:"walSync,omitempty"`
-	Partitions       int     `json:"partitions,omitempty"`
-	Leaders          int     `json:"leaders,omitempty"`
-	FollowersPerPart int     `json:"followersPerPart,omitempty"`
-	Codec            bool    `json:"codec,omitempty"`
-	Faults           bool    `json:"faults,omitempty"`
+	VirtualTime      bool             `json:"virtualTime,omitempty"`
+	CoalesceNanos    int64            `json:"coalesce,omitempty"`
+	IterConcurrency  int              `json:"iterConc,omitempty"`
+	MaxMemoryRatio   float64          `json:"maxMemRatio,omitempty"`
+	WALSyncNanos     int64            `json:"walSync,omitempty"`
+	Partitions       int              `json:"partitions,omitempty"`
+	Leaders          int              `json:"leaders,omitempty"`
+	FollowersPerPart int              `json:"followersPerPart,omitempty"`
+	Codec            bool             `json:"codec,omitempty"`
+	Faults           bool             `json:"faults,omitempty"`
 	Extra            map[string]int64 `json:"extra,omitempty"`
 }
 
@@ -371,14 +371,14 @@ type Op struct {
 	Dt int64  `json:"dt,omitempty"` // simulated nanoseconds slept before the op
 	P  *Point `json:"p,omitempty"`
 	// generic arguments
-	S    string   `json:"s,omitempty"`
-	S2   string   `json:"s2,omitempty"`
-	N    int64    `json:"n,omitempty"`
-	N2   int64    `json:"n2,omitempty"`
-	B    bool     `json:"b,omitempty"`
-	Strs []string `json:"strs,omitempty"`
+	S    string    `json:"s,omitempty"`
+	S2   string    `json:"s2,omitempty"`
+	N    int64     `json:"n,omitempty"`
+	N2   int64     `json:"n2,omitempty"`
+	B    bool      `json:"b,omitempty"`
+	Strs []string  `json:"strs,omitempty"`
 	T    *TableDef `json:"t,omitempty"`
-	Sub  []Op     `json:"sub,omitempty"`
+	Sub  []Op      `json:"sub,omitempty"`
 }
 
 // Plan is a complete, explicit description of one run.
